@@ -23,11 +23,27 @@ pub fn options_from_bits(bits: u32) -> GeneratorOptions {
     o
 }
 
-pub fn result_str<T: FuzzyHashType>(r: Result<T, tlsh::GeneratorError>, bin_len: usize) -> String {
+thread_local! {
+    /// set when a generated hash fails the strict-validity / round-trip oracle (C15)
+    pub static C15_FAIL: std::cell::Cell<bool> = std::cell::Cell::new(false);
+}
+
+pub fn result_str<T: FuzzyHashType + PartialEq>(r: Result<T, tlsh::GeneratorError>, bin_len: usize) -> String {
     match r {
         Ok(h) => {
             let mut buf = vec![0u8; bin_len];
             h.store_into_bytes(&mut buf).unwrap();
+            // direct oracle (C15): every generated hash is strictly valid and survives both round trips
+            {
+                use tlsh::hash::checksum::FuzzyHashChecksum;
+                let mut ok = h.checksum().is_valid() && h.length().is_valid();
+                let mut text = vec![0u8; 2 * bin_len + 2];
+                h.store_into_str_bytes(&mut text, tlsh::HexStringPrefix::WithVersion).unwrap();
+                ok &= T::from_str_bytes(&text, None).ok().as_ref() == Some(&h);
+                if !ok {
+                    C15_FAIL.with(|c| c.set(true));
+                }
+            }
             format!("ok:{}", hex(&buf))
         }
         Err(e) => format!("err:{:?}", e),
@@ -160,6 +176,9 @@ pub fn emit_gen(out: &mut impl Write, vi: usize, data: &[u8], pieces: &[Vec<u8>]
         match r {
             Ok((lens, res, same)) => {
                 writeln!(out, "gen {} {} {} => {} {}", vi, opts_s, pieces_str(pieces), join(&lens, ","), res.join(";")).unwrap();
+                if C15_FAIL.with(|c| c.replace(false)) {
+                    writeln!(out, "ORACLE C15 generated-hash-not-strictly-valid-or-no-round-trip gen {} {} {}", vi, opts_s, pieces_str(pieces)).unwrap();
+                }
                 if !same {
                     writeln!(out, "ORACLE C03 chunked-differs-from-one-shot gen {} {} {}", vi, opts_s, pieces_str(pieces)).unwrap();
                 }
@@ -360,6 +379,9 @@ pub fn emit_state(out: &mut impl Write, vi: usize, st: &RawState, pieces: &[Vec<
         match r {
             Ok((lens, post, res, undisturbed)) => {
                 writeln!(out, "{} => {} {} {}", head, post, join(&lens, ","), res.join(";")).unwrap();
+                if C15_FAIL.with(|c| c.replace(false)) {
+                    writeln!(out, "ORACLE C15 generated-hash-not-strictly-valid-or-no-round-trip {}", head).unwrap();
+                }
                 if !undisturbed {
                     writeln!(out, "ORACLE C03 finalize-disturbed-state-or-C10-monotonicity {}", head).unwrap();
                     writeln!(out, "ORACLE C10 option-monotonicity-or-finalize-disturbed-state {}", head).unwrap();
